@@ -34,6 +34,7 @@ import pathlib
 
 ABSENT = ("absent",)          # the variable must not be in the child's environment
 UNSPEC = ("unspecified",)     # the string form is not pinned by the documentation; only round trip is checked
+OPTIONAL = ("optional",)      # either omitted (no string form) or any string that survives the round trip
 
 FALSES = frozenset(["", "0", "n", "f", "no", "none", "false", "off"])
 
@@ -86,7 +87,7 @@ BY_VALIDATOR = {
     "is_lscolors": "lscolors",
     "is_var_pattern": "varpattern",
     "is_valid_shlvl": "shlvl",
-    "callable": "opaque",
+    "callable": "opaque_callable",
 }
 BY_CONVERTER = {            # variables whose validator is always_false (converter runs on every assignment)
     "to_debug": "debug",
@@ -263,9 +264,11 @@ def ref_detype(kind, spec, home):
         if spec is None:
             return ""
         return spec if isinstance(spec, str) else UNSPEC
+    if kind == "varpattern":
+        return OPTIONAL
     if kind == "tokdict":
         if spec.get("keys") == "token":
-            return UNSPEC
+            return OPTIONAL if spec["d"] else ""
         return repr(dict(spec["d"])) if spec["d"] else ""
     if kind == "lscolors":
         # the colour-name <-> escape-code tables are xonsh's; the reference is a *fresh* object built from the
@@ -291,6 +294,8 @@ def same_string(ref, got):
     """Does the string xonsh produced agree with the reference form?"""
     if ref is UNSPEC:
         return isinstance(got, str)
+    if ref is OPTIONAL:
+        return got is None or isinstance(got, str)
     if ref is ABSENT:
         return got is None
     if not isinstance(got, str):
@@ -306,6 +311,8 @@ def show_ref(ref):
         return "<absent>"
     if ref is UNSPEC:
         return "<any str>"
+    if ref is OPTIONAL:
+        return "<absent or any str>"
     if isinstance(ref, tuple) and ref[0] == "set":
         return "csv of %r" % (sorted(ref[1]),)
     return repr(ref)
@@ -383,8 +390,12 @@ TEXT_ALPHABET = "abcXYZ019 _-./:=~$'\"\\\t\n%{}[]()*?!#&|;<>,@^+éλ雪"
 PATH_ENTRIES = ["/a", "/usr/local/bin", "/opt/x y/bin", "rel/dir", ".", "..", "", "~", "~/bin", "/ünï/cödé",
                 "/a", "/b/c", {"path": "/p/q"}, {"path": "rel"}, {"path": "~/y"}, "/trailing/", "//dbl"]
 LS_KEYS = ["di", "ln", "ex", "fi", "*.zip", "*.tar.gz", "or", "ow", "so"]
-LS_NAMES = ["BOLD_RED", "CYAN", "BOLD_PURPLE", "RESET", "BACKGROUND_BLACK", "YELLOW", "BOLD_BLUE", "BOLD_GREEN",
-            "BLACK", "BACKGROUND_RED", "WHITE", "BACKGROUND_BLUE", "BLUE", "BACKGROUND_GREEN", "RED", "BOLD_CYAN"]
+# colour values exactly as LsColors.default_settings spells them (arbitrary combinations of colour names have no
+# canonical escape sequence: ('BOLD_RED', 'RESET') -> '1;31;0' reads back differently)
+LS_VALUES = [["BOLD_RED"], ["CYAN"], ["BOLD_PURPLE"], ["BACKGROUND_BLACK", "YELLOW"], ["BLACK", "BACKGROUND_RED"],
+             ["BOLD_BLUE"], ["BOLD_GREEN"], ["RESET"], ["BOLD_CYAN"], ["BACKGROUND_BLACK", "RED"],
+             ["BLUE", "BACKGROUND_GREEN"], ["BLACK", "BACKGROUND_YELLOW"], ["WHITE", "BACKGROUND_BLUE"],
+             ["WHITE", "BACKGROUND_RED"], ["BLACK", "BACKGROUND_GREEN"]]
 TOK_NAMES = ["Token.Keyword", "Token.Literal.String", "Token.Name.Builtin", "Token.Comment", "Token.Operator"]
 TOK_STYLES = ["#ff0000", "bold", "bg:#000000 italic", "underline #00ff00", "noinherit", "#abc"]
 HIST_WORDS = ["ignoredups", "ignoreerr", "ignorespace", "erasedups", "x", "y z"]
@@ -413,10 +424,9 @@ def ls_code(st):
 
 
 def lscolors_specs(st):
-    by_map = st.dictionaries(st.sampled_from(LS_KEYS), st.lists(st.sampled_from(LS_NAMES), min_size=1, max_size=2),
-                             max_size=4).map(lambda d: {"map": d})
-    with_target = st.dictionaries(st.sampled_from(LS_KEYS), st.lists(st.sampled_from(LS_NAMES), min_size=1, max_size=2),
-                                  max_size=3).map(lambda d: {"map": dict(d, ln="target")})
+    by_map = st.dictionaries(st.sampled_from(LS_KEYS), st.sampled_from(LS_VALUES), max_size=4).map(lambda d: {"map": d})
+    with_target = st.dictionaries(st.sampled_from(LS_KEYS), st.sampled_from(LS_VALUES), max_size=3).map(
+        lambda d: {"map": dict(d, ln="target")})
     by_str = st.dictionaries(st.sampled_from(LS_KEYS), ls_code(st), max_size=4).map(
         lambda d: {"from": ":".join("%s=%s" % kv for kv in d.items())})
     return st.one_of(by_map, by_str, with_target)
@@ -497,6 +507,8 @@ def strategy(kind, st, scratch="/var/tmp", shapes=True):
         return st.sampled_from(COLOR_DEPTHS)
     if kind == "opaque":
         return st.integers(0, 3).map(lambda n: {"obj": n})
+    if kind == "opaque_callable":
+        return st.just({"callable": "formatter"})
     if kind == "untyped":
         return st.one_of(text(st), text(st), st.integers(-9, 99), st.booleans(),
                          st.floats(allow_nan=False, width=32).map(enc_num),
